@@ -197,7 +197,8 @@ type runner struct {
 	budget float64 // multiplier of the generators' case counts
 	perEP  map[string]int
 	slow   map[string]time.Duration
-	model  []modelCase // cases that also go to the Lean model
+	model  []modelCase       // cases that also go to the Lean model
+	seeds  map[string][]Case // a few executed cases per entry point: seed corpus of the native fuzz targets
 }
 
 func findingID(c Case, o outcome) string {
@@ -226,6 +227,9 @@ func (r *runner) do(c Case) outcome {
 		return o
 	}
 	r.perEP[c.EP]++
+	if n := r.perEP[c.EP]; (n <= 12 || n%499 == 0) && len(r.seeds[c.EP]) < 80 && c.Family != "scaling" {
+		r.seeds[c.EP] = append(r.seeds[c.EP], c)
+	}
 	if r.perEP[c.EP] == 3 && len(c.Args) > 0 { // a few actual cases for the evidence (lib keeps the first 8)
 		r.res.Sample(map[string]any{"case": c, "outcome": o.Class})
 	}
@@ -296,7 +300,7 @@ func mk(ep string, kv ...string) Case {
 func main() {
 	fl := lib.ParseFlags()
 	res := lib.NewResult("a case is (entry point, arguments); non-trivial = at least one non-empty argument; distinct = distinct (entry point, arguments)")
-	r := &runner{res: res, fl: fl, rnd: lib.NewRand(fl.Seed*0x9e3779b97f4a7c15 + 7), budget: 1, perEP: map[string]int{}, slow: map[string]time.Duration{}}
+	r := &runner{res: res, fl: fl, rnd: lib.NewRand(fl.Seed*0x9e3779b97f4a7c15 + 7), budget: 1, perEP: map[string]int{}, slow: map[string]time.Duration{}, seeds: map[string][]Case{}}
 	if fl.Tier == "thorough" {
 		r.budget = 8
 	}
@@ -322,6 +326,9 @@ func main() {
 		res.Hit("gen_ms:" + g.name + ":" + lib.Itoa(int(time.Since(tg).Milliseconds())/100*100))
 	}
 	r.runModel()
+	if only == "" || os.Getenv("C07_FUZZ") != "" {
+		runNativeFuzz(r)
+	}
 
 	inventoryStats(res)
 	// every registered entry point must have been exercised
